@@ -2,7 +2,7 @@
 precondition).  One entry per callee; anything not listed here is reported as unmodelled."""
 from . import bits as B
 from . import solver
-from .lin import (FALSE, INT_BITS, INT_MAX, TRUE, Lin, eq, f_and, f_not, f_or, flit, ge, gt, le, lin, lt, ne)
+from .lin import (FALSE, INT_BITS, INT_MAX, INT_MIN, TRUE, Lin, eq, f_and, f_not, f_or, flit, ge, gt, le, lin, lt, ne)
 from .values import *
 
 
@@ -102,6 +102,8 @@ class Models:
             self.table[f"core::num::<impl {w}>::checked_add"] = self.m_checked_add
             self.table[f"core::num::<impl {w}>::trailing_zeros"] = self.m_opaque_int
             self.table[f"core::num::<impl {w}>::count_ones"] = self.m_opaque_int
+        from . import stdext
+        self.ext = stdext.install(self)
 
     def call(self, e, st, args):
         m = self.table.get(e["fn"])
@@ -508,6 +510,9 @@ class Models:
             r = self._from(e, st, a, ga[0], ga[1])
             if r is not None:
                 return r
+            r = self._int_conv(st, a, ga[1], e)
+            if r is not None:
+                return r
         return [(st, "val", a[0])]
 
     def m_from(self, e, st, a):
@@ -516,7 +521,19 @@ class Models:
             r = self._from(e, st, a, ga[1], ga[0])
             if r is not None:
                 return r
+            r = self._int_conv(st, a, ga[0], e)
+            if r is not None:
+                return r
         return [(st, "val", a[0])]
+
+    def _int_conv(self, st, a, dst, e):
+        """From/Into between integer types (lossless by construction) and bool -> integer"""
+        t = self.I.F.types[dst]
+        if t["k"] == "int" and isinstance(a[0], IntV) and a[0].ty != t["s"]:
+            return [(s, "val", v) for s, v in self.I.cast_int(st, a[0], t["s"], e)]
+        if t["k"] == "int" and isinstance(a[0], BoolV):
+            return [(s, "val", v) for s, v in self.I.bool_to_int_split(st, a[0], t["s"])]
+        return None
 
     def _from(self, e, st, a, src, dst):
         F = self.I.F
@@ -560,6 +577,13 @@ class Models:
 
     def _try_from(self, e, st, a, src, dst):
         F = self.I.F
+        dt = F.types[dst]
+        if dt["k"] == "int" and isinstance(a[0], IntV):
+            ty = dt["s"]
+            good = f_and(flit(ge(a[0].l, INT_MIN[ty])), flit(le(a[0].l, INT_MAX[ty])))
+            out = [(s, "val", ok(IntV(a[0].l, ty))) for s in self.I.assume(st, good)]
+            out += [(s, "val", err(Opaque("TryFromIntError"))) for s in self.I.assume(st, f_not(good))]
+            return out
         dk, sk = self.I.ty_key_subst(st, dst), self.I.ty_key_subst(st, src)
         for im in F.impls:
             if im["trait"] == "std::convert::TryFrom" and F.ty_key(im["self"]) == dk and len(im["trait_args"]) > 1:
